@@ -178,7 +178,8 @@ class ShaclSerializer(object):
                                  r_constraint_node=r_constraint_node)
         self._add_direct_path(statement=statement,
                               r_constraint_node=r_constraint_node)
-        self._add_exactly_one_cardinality(r_constraint_node=r_constraint_node)
+        self._add_cardinality(statement=statement,
+                              r_constraint_node=r_constraint_node)
         self._add_in_instance(statement=statement,
                               r_constraint_node=r_constraint_node)
 
